@@ -58,44 +58,77 @@ def r1_signs(ctx):
                    "" if ok else "%s: the %s is %s (expected the negation of the own %s bound%s)"
                    % (name, label, show(tree), which, "; it is the own %s bound" % other if inner in own[other] else ""),
                    ctx.where(f, t["line"]), sample={"function": name, "argument": show(tree), "own_%s" % which: sorted(show(x) for x in own[which])})
-        # child value negated exactly once: every read of child.value flows (through plain copies) into a Neg
+        # child value negated exactly once: sign-parity dataflow from every read of child.value through single-definition
+        # locals (plain copies keep the parity, Neg flips it); every other use (comparison, argument, copy into a
+        # multiply assigned variable such as alpha / best) is a sink and must see the value negated exactly once
         child = t["dest"]["l"]
-        copies = {}
-        neg_of = set()
+        ndefs = {}
+        for b in sorted(cfg.reach):
+            for s in f["blocks"][b]["stmts"]:
+                if s["dst"] is not None and not s["dst"]["p"]:
+                    ndefs[s["dst"]["l"]] = ndefs.get(s["dst"]["l"], 0) + 1
+            tt = f["blocks"][b]["term"]
+            if tt["k"] == "call" and tt.get("dest") and not tt["dest"]["p"]:
+                ndefs[tt["dest"]["l"]] = ndefs.get(tt["dest"]["l"], 0) + 1
+
+        def is_child_value(a):
+            return a.get("k") in ("copy", "move") and a["pl"]["l"] == child and [e.get("name") for e in a["pl"]["p"] if isinstance(e, dict)] == ["value"]
+
+        parity = {}     # local -> +1 / -1 (times the child's value)
+        changed = True
+        while changed:
+            changed = False
+            for b in sorted(cfg.reach):
+                for s in f["blocks"][b]["stmts"]:
+                    rv, d = s["rv"], s["dst"]
+                    if d is None or d["p"] or ndefs.get(d["l"]) != 1 or rv["op"] not in ("use", "un") or (rv["op"] == "un" and rv["uop"] != "Neg"):
+                        continue
+                    a = rv["a"][0]
+                    src = None
+                    if is_child_value(a):
+                        src = 1
+                    elif a.get("k") in ("copy", "move") and not a["pl"]["p"] and a["pl"]["l"] in parity:
+                        src = parity[a["pl"]["l"]]
+                    if src is None:
+                        continue
+                    val = -src if rv["op"] == "un" else src
+                    if parity.get(d["l"]) != val:
+                        parity[d["l"]] = val
+                        changed = True
+        reads = negs = 0
+        wrong = []
+
+        def sink(a, line):
+            nonlocal reads, negs
+            if is_child_value(a):
+                par = 1
+            elif a.get("k") in ("copy", "move") and not a["pl"]["p"] and a["pl"]["l"] in parity:
+                par = parity[a["pl"]["l"]]
+            else:
+                return
+            reads += 1
+            if par == -1:
+                negs += 1
+            else:
+                wrong.append(line)
+
         for b in sorted(cfg.reach):
             for s in f["blocks"][b]["stmts"]:
                 rv, d = s["rv"], s["dst"]
-                if d is None or d["p"]:
+                propagates = d is not None and not d["p"] and ndefs.get(d["l"]) == 1 and (rv["op"] == "use" or (rv["op"] == "un" and rv["uop"] == "Neg"))
+                if propagates:
                     continue
-                if rv["op"] == "use" and rv["a"][0].get("k") in ("copy", "move") and not rv["a"][0]["pl"]["p"]:
-                    copies.setdefault(rv["a"][0]["pl"]["l"], set()).add(d["l"])
-                if rv["op"] == "un" and rv["uop"] == "Neg" and rv["a"][0].get("k") in ("copy", "move") and not rv["a"][0]["pl"]["p"]:
-                    neg_of.add(rv["a"][0]["pl"]["l"])
-        reads, negs = 0, 0
-        for b in sorted(cfg.reach):
-            for s in f["blocks"][b]["stmts"]:
-                rv = s["rv"]
+                if rv["op"] == "bin" and rv["bop"] == "Eq" and any(x.get("k") == "const" and x.get("v") == -2147483648 for x in rv["a"]):
+                    continue    # the compiler's overflow check in front of a negation
                 for a in rv.get("a", []):
-                    if a.get("k") in ("copy", "move") and a["pl"]["l"] == child and [e.get("name") for e in a["pl"]["p"] if isinstance(e, dict)] == ["value"]:
-                        reads += 1
-                        if rv["op"] == "un" and rv["uop"] == "Neg":
-                            negs += 1
-                            continue
-                        d = s["dst"]
-                        if d is not None and not d["p"]:
-                            seen, work = set(), [d["l"]]
-                            hit = False
-                            while work:
-                                x = work.pop()
-                                if x in seen:
-                                    continue
-                                seen.add(x)
-                                if x in neg_of:
-                                    hit = True
-                                work.extend(copies.get(x, ()))
-                            negs += 1 if hit else 0
+                    sink(a, s["line"])
+            tt = f["blocks"][b]["term"]
+            for a in tt.get("args", []) if tt["k"] == "call" else []:
+                sink(a, tt["line"])
+            if tt["k"] == "switch":
+                sink(tt["discr"], tt.get("line", 0))
         ok = reads >= 1 and reads == negs
-        ctx.ob(rid, "%s|child-value-negated" % name, ok, "" if ok else "%s reads the child's value %d time(s) and negates it %d time(s)" % (name, reads, negs), ctx.where(f, t["line"]),
+        ctx.ob(rid, "%s|child-value-negated" % name, ok, "" if ok else "%s uses the child's value %d time(s) (comparisons, arguments, assignments to alpha/best), of which %d see it negated exactly once; un-negated or doubly negated use at line(s) %s" % (name, reads, negs, sorted(set(wrong))[:4]), ctx.where(f, t["line"]),
                sample={"function": name, "reads": reads, "negations": negs})
 
 
@@ -226,10 +259,211 @@ def r2_bounds(ctx):
                ctx.where(f, sw["line"]), sample={"variant": v, "action": [(c[0], [show(a) for a in c[1]]) for c in calls] or ("return" if returns else None)})
 
 
+_LOCAL_LABEL = {}
+
+
+def _atoms(t, depth=0):
+    """coarse, rename-stable description of a condition / value tree: callee names (arguments not descended),
+    field names, parameter numbers, operators; locals are anonymous"""
+    out = set()
+    if not isinstance(t, tuple):
+        return out
+    k = t[0]
+    if k == "call":
+        out.add("call:" + "::".join(t[1].replace("<", "").replace(">", "").split("::")[-2:]))
+        return out
+    if k == "param":
+        out.add("arg%d" % t[1])
+    elif k == "local":
+        out.add(_LOCAL_LABEL.get(t[1], "local"))
+    elif k == "f":
+        out.add("field:" + str(t[2]))
+        out |= _atoms(t[1], depth + 1)
+    elif k == "bin":
+        out.add("cmp" if t[1] in ("Ge", "Gt", "Le", "Lt", "Eq", "Ne") else "op:" + t[1])
+        out |= _atoms(t[2], depth + 1) | _atoms(t[3], depth + 1)
+    elif k in ("un",):
+        if t[1] != "Not":
+            out.add("op:" + t[1])
+        out |= _atoms(t[2], depth + 1)
+    elif k == "cast":
+        out |= _atoms(t[2], depth + 1)
+    elif k in ("*", "&", "discr"):
+        if k == "discr":
+            out.add("discr")
+        out |= _atoms(t[1], depth + 1)
+    elif k == "dc":
+        out |= _atoms(t[1], depth + 1)
+    elif k == "agg":
+        out.add("agg:" + str(t[2]).rsplit("::", 2)[-1])
+        for a in t[3]:
+            out |= _atoms(a, depth + 1)
+    elif k == "c":
+        if isinstance(t[1], bool):
+            out.add("const:%s" % t[1])
+    return out
+
+
+def search_control_inventory(f, name):
+    """every way the recursive search `f` stops searching: exits (assignments of the return value), loop skips
+    (paths of the move loop that return to its header without the recursive call) and loop breaks.  Each item:
+    (kind, key, line) with key = immediate guards + value, described by _atoms"""
+    cfg, ex = Cfg(f), Exprs(f)
+    _LOCAL_LABEL.clear()
+    for p_ in range(1, f["args"] + 1):
+        for l in param_local_copy(f, ex, p_):
+            _LOCAL_LABEL[l] = "var(arg%d)" % p_
+    rec = [b for b in sorted(cfg.reach) if f["blocks"][b]["term"]["k"] == "call" and f["blocks"][b]["term"]["callee"].get("key") == SEARCH + name]
+    if len(rec) != 1:
+        return None
+    rec = rec[0]
+    headers = sorted({h for (a, h) in cfg.back_edges() if cfg.dominates(h, rec)})
+    if len(headers) != 1:
+        return None
+    hdr = headers[0]
+    body = set()
+    for (a, h) in cfg.back_edges():
+        if h != hdr:
+            continue
+        work = [a]
+        body.add(h)
+        while work:
+            x = work.pop()
+            if x in body:
+                continue
+            body.add(x)
+            work.extend(cfg.pred[x])
+
+    # the loop's own test: the first switch after the header (iterator exhausted / loop condition false)
+    ns = hdr
+    for _ in range(8):
+        if f["blocks"][ns]["term"]["k"] == "switch":
+            break
+        nxt = [x for x in cfg.succ[ns] if not f["blocks"][x]["cleanup"]]
+        if len(nxt) != 1:
+            ns = None
+            break
+        ns = nxt[0]
+    else:
+        ns = None
+
+    def guards(b):
+        gs = []
+        for (a, sb) in sorted(cfg.control_deps().get(b, ())):
+            sw = f["blocks"][a]["term"]
+            if sw["k"] != "switch":
+                continue
+            if a == ns:
+                gs.append("[loop-test]" + ("continues" if sb in body else "finished"))
+                continue
+            d = ex.operand(sw["discr"])
+            taken = [v for v, tb in sw["targets"] if tb == sb]
+            pol = "=%s" % taken[0] if taken else "else"
+            gs.append("[" + ",".join(sorted(_atoms(d))) + "]" + pol)
+        return sorted(set(gs))
+
+    items = []
+    for b in sorted(cfg.reach):
+        blk = f["blocks"][b]
+        if blk["cleanup"]:
+            continue
+        vals = []
+        for s in blk["stmts"]:
+            if s["dst"] is not None and s["dst"]["l"] == 0 and not s["dst"]["p"]:
+                vals.append((ex.rvalue(s["rv"], None), s["line"]))
+        t = blk["term"]
+        if t["k"] == "call" and t.get("dest") and t["dest"]["l"] == 0 and not t["dest"]["p"]:
+            vals.append((("call", t["callee"].get("key") or "?", tuple(ex.operand(a) for a in t["args"]), ""), t["line"]))
+        for v, line in vals:
+            where = "before-loop" if not cfg.dominates(hdr, b) else "loop-or-after"
+            items.append(("exit", "%s|exit|%s|if %s" % (name, where, " & ".join(guards(b)) or "-"), line))
+    # skips: an edge inside the loop body (before the recursive call) after which the recursive call can no longer
+    # be reached in this iteration but the loop continues
+    def reach_in_body(start):
+        seen, work = set(), [start]
+        while work:
+            x = work.pop()
+            if x in seen or x not in body:
+                continue
+            seen.add(x)
+            if x == hdr:
+                continue
+            work.extend(cfg.succ[x])
+        return seen
+    for b in sorted(body):
+        t = f["blocks"][b]["term"]
+        if t["k"] != "switch" or cfg.dominates(rec, b):
+            continue
+        if rec not in reach_in_body(b):
+            continue
+        d = ex.operand(t["discr"])
+        for x in sorted(set(cfg.succ[b])):
+            r = reach_in_body(x)
+            if x in body and rec not in r and hdr in r:
+                taken = [v for v, tb in t["targets"] if tb == x]
+                pol = "=%s" % taken[0] if taken else "else"
+                items.append(("skip", "%s|skip|if [%s]%s" % (name, ",".join(sorted(_atoms(d))), pol), t.get("line", 0)))
+    # breaks: edges leaving the loop body from a block other than the header, to a block that is not an exit path only
+    for b in sorted(body):
+        if b == hdr:
+            continue
+        t = f["blocks"][b]["term"]
+        for x in cfg.succ[b]:
+            if x in body or f["blocks"][x]["cleanup"] or b == ns:
+                continue
+            if t["k"] == "switch":
+                d = ex.operand(t["discr"])
+                taken = [v for v, tb in t["targets"] if tb == x]
+                pol = "=%s" % taken[0] if taken else "else"
+                items.append(("leave", "%s|leave-loop|if [%s]%s" % (name, ",".join(sorted(_atoms(d))), pol), t.get("line", 0)))
+            else:
+                items.append(("leave", "%s|leave-loop|%s|if %s" % (name, t["k"], " & ".join(guards(b)) or "-"), t.get("line", 0)))
+    return items
+
+
+def _must_pass(cfg, start, rec, hdr, body):
+    """does every path from start back to the loop header (inside the body) pass the recursive call?"""
+    seen, work = set(), [start]
+    while work:
+        x = work.pop()
+        if x in seen or x == rec or x not in body:
+            continue
+        if x == hdr:
+            return False
+        seen.add(x)
+        work.extend(cfg.succ[x])
+    return True
+
+
+def r4_control_inventory(ctx):
+    rid = "C08.R4"
+    ctx.rule(rid, "every way the two recursive searches stop searching - an exit, a move of the loop skipped without the recursive call, a way out of the move loop - is a reviewed one (tables/search_exits.json, keyed by the atoms of its immediate guard and of the value returned); a new cut-off needs a soundness argument before it is trusted", floor=16)
+    from .common import table
+    reviewed = {k: v for k, v in table("search_exits.json").items() if not k.startswith("_")}
+    seen = set()
+    for name in ("search_negamax", "search_quiescence"):
+        f = ctx.fn(rid, SEARCH + name)
+        items = search_control_inventory(f, name)
+        if items is None:
+            ctx.lost(rid, "%s: one recursive call inside one move loop" % name)
+            continue
+        for kind, key, line in items:
+            if key in seen:
+                continue
+            seen.add(key)
+            ok = key in reviewed
+            ctx.ob(rid, key, ok,
+                   "" if ok else "%s has a %s that is not in the reviewed inventory: the search stops (or skips a move) under a condition nobody argued sound - a cut-off that discards a line which could still change the value (delta/futility/null-move style pruning, an early fail-low before any move was searched) changes minimax values" % (name, {"exit": "return", "skip": "move-loop skip", "leave": "way out of the move loop"}[kind]),
+                   ctx.where(f, line), sample={"key": key, "reason": reviewed.get(key, "")[:160]})
+    gone = sorted(set(reviewed) - seen)
+    ctx.extra["reviewed_exits_not_present"] = gone
+
+
 def run(ctx):
     r1_signs(ctx)
     r2_bounds(ctx)
     r3_no_moves_flag(ctx)
+    r4_control_inventory(ctx)
 
 
 def r3_no_moves_flag(ctx):
